@@ -363,7 +363,16 @@ int read_elf(
       uint32_t i;
       for (i = 0; i < elf_shdr.sh_size; i++)
       {
-        memory->write8(elf_shdr.sh_addr + i, file.get_int8());
+        int value = file.get_int8();
+
+        if (value == EOF)
+        {
+          printf("Error: Section %s is longer than the file.\n", name);
+          file.close_file();
+          return -1;
+        }
+
+        memory->write8(elf_shdr.sh_addr + i, value);
       }
 
       file.set(marker);
